@@ -148,6 +148,8 @@ def gen_scenario(rng, k, force=None):
     target = force.get("target") or rng.choice(
         ["usage", "temp", "both", "month_temp", "month_temp", "usage", "temp", "negative", "extreme", "zero", "nodata",
          "ends", "random", "clean", "month_usage", "month_ghi"])
+    if fam == "daily" and period == "reporting" and sc.get("observed_column") and not force.get("target") and rng.random() < 0.2:
+        target = "rep_partial"       # usage on the first part of the reporting period only
     delta = rng.choice([-1, 0, 0, 1])
     sc["target"] = [target, delta]
     n_star = ceil_div(9 * T, 10)                     # fewest valid whole days that are not "under 90 %"
@@ -183,6 +185,13 @@ def gen_scenario(rng, k, force=None):
             um = cells
         else:
             sc["ghi_missing"] = to_runs(cells)
+    elif target == "rep_partial":
+        if sc["entry"] == "from_series":
+            sc["entry"] = "frame"                      # from_series trims to the rows that have usage
+        k = rng.randrange(60, max(61, n // 2))
+        um = list(range(k, n))
+        # temperature gaps after the usage stops: between 85 % and 95 % of the whole span stays valid
+        tmiss = place(rng, months, k + 1, hi, (n * rng.choice([5, 9, 11, 13])) // 100, caps=False)
     elif target == "nodata":
         if rng.random() < 0.5:
             um = list(range(n))
@@ -716,7 +725,7 @@ def main():
         corpus = os.path.join(vlib.VERIF, "corpus", "C10.json")
         if os.path.exists(corpus):
             scenarios += json.load(open(corpus))
-        n = int(os.environ.get("VERIF_C10_N", run.n(300, 5000)))     # VERIF_C10_N: development aid only
+        n = int(os.environ.get("VERIF_C10_N", run.n(300, 10000)))     # VERIF_C10_N: development aid only
         k = 0
         forced = [{"family": f, "period": p, "target": t, "span": s}
                   for f in ("daily", "hourly") for p in ("baseline",) for t, s in
